@@ -22,9 +22,10 @@ from __future__ import annotations
 import ast
 from typing import Any, Dict, List, Optional, Set, Tuple
 
+from ..absint import AObj, Raised, Recorder, construct
 from ..core import AnalysisError, ClassInfo, Ctx, FuncInfo, body_without_docstring, calls_in, dotted, norm, walk_no_nested
 from ..decide import paths_of
-from ..fold import Folder, Sym, Unfoldable
+from ..fold import Abstract, Folder, Sym, Unfoldable
 from ..linform import prove_count_reduction
 
 SYM = "_bit_length_set._symbolic"
@@ -57,6 +58,68 @@ def _sample_ints(n: int, lo: int, hi: int, seed: int) -> List[int]:
 
 def operators(ctx: Ctx) -> List[ClassInfo]:
     return [c for c in ctx.repo.subclasses(ctx.cls(SYM + ".Operator"), strict=True)]
+
+
+def concrete_operators(ctx: Ctx) -> List[ClassInfo]:
+    """the operator classes that can be instantiated: every query resolves (through the MRO) to a non-abstract method"""
+    out = []
+    for c in operators(ctx):
+        ms = [ctx.repo.lookup_method(c, q) for q in QUERIES]
+        if all(m is not None and not m.is_abstract for m in ms):
+            out.append(c)
+    return out
+
+
+class Tok(Abstract):
+    """an opaque answer of a stand-in operand: it can only be handed on, so what comes back identifies what was asked"""
+
+    def __init__(self, name: str):
+        self.name = name
+
+    def __repr__(self) -> str:
+        return "<%s>" % self.name
+
+
+def _quiet_hook(e: ast.expr, f: Folder) -> Any:
+    """clock reads answer 0 and the run-time self-check / logging have no effect the model observes"""
+    if isinstance(e, ast.Call):
+        n = (dotted(e.func) or "").split(".")
+        if n[-1] in ("monotonic", "perf_counter", "time", "process_time", "monotonic_ns", "perf_counter_ns"):
+            return 0
+        if n[-1] == "validate_numerically" or n[0] in ("_logger", "logging", "logger"):
+            return None
+    return NotImplemented
+
+
+def _ask(ctx: Ctx, obj: Any, query: str, *args: Any) -> Any:
+    """evaluate `obj.<query>` / `obj.<query>(args)` from the source of obj's class"""
+    cls = obj._cls_
+    env = {"x": obj}
+    env.update({"a%d" % i: a for i, a in enumerate(args)})
+    m = ctx.repo.lookup_method(cls, query)
+    if m is None:
+        raise AnalysisError("%s has no member %s" % (cls.qualname, query))
+    src = "x.%s" % query if m.is_property else "x.%s(%s)" % (query, ", ".join("a%d" % i for i in range(len(args))))
+    try:
+        return Folder(env, ctx.repo, cls.module, None, _quiet_hook).fold(ast.parse(src, mode="eval").body)
+    except Unfoldable as ex:
+        raise AnalysisError("%s.%s: cannot be evaluated over the rule's operands: %s" % (cls.qualname, query, ex))
+
+
+def stand_in_operand(ctx: Ctx, name: str, log: Optional[List[Any]] = None) -> AObj:
+    """an operand of the abstract base class whose four queries answer with tokens that name the query and its arguments"""
+    o = AObj(ctx.cls(SYM + ".Operator"), ctx)
+    answers: Dict[Any, Tok] = {}
+
+    def ans(q: str, *a: Any) -> Tok:
+        return answers.setdefault((q, a), Tok("%s.%s%s" % (name, q, "(%s)" % ", ".join(map(repr, a)) if q in ("modulo", "expand") else "")))
+
+    o.__dict__["min"] = ans("min")
+    o.__dict__["max"] = ans("max")
+    o.__dict__["modulo"] = Recorder("modulo", lambda d: ans("modulo", d), log)
+    o.__dict__["expand"] = Recorder("expand", lambda: ans("expand"), log)
+    o.__dict__["_answers_"] = ans
+    return o
 
 
 def rule_r1(ctx: Ctx) -> None:
@@ -156,42 +219,43 @@ def rule_r2(ctx: Ctx, rid: str = "C01.R2") -> None:
 
 
 def rule_r3(ctx: Ctx) -> None:
-    ctx.rule("C01.R3", "memo transparency: each cache slot is filled only with the child's answer to the same query and arguments, and that slot is what is returned", min_instances=4)
+    ctx.rule("C01.R3", "memo transparency: the memoising operator, constructed over a stand-in operand and asked any sequence of queries, answers each with exactly what the operand answers to the same query with the same arguments", min_instances=4)
     m = ctx.cls(SYM + ".MemoizationOperator")
-    for slot, q in MEMO_SLOTS.items():
-        fn = m.methods.get(q)
-        if fn is None:
-            ctx.fail(m.short + "." + q, "missing", "memoised query missing", where=m.module.relpath)
-            continue
-        args = fn.params[1:]
-        stores = []
-        for st in walk_no_nested(fn.node):
-            if isinstance(st, ast.Assign):
-                for t in st.targets:
-                    base = t.value if isinstance(t, ast.Subscript) else t
-                    if dotted(base) == "self." + slot:
-                        key = norm(t.slice) if isinstance(t, ast.Subscript) else None
-                        stores.append((key, norm(st.value)))
-        want_val = "self._child.%s(%s)" % (q, ", ".join(args)) if not fn.is_property else "self._child.%s" % q
-        want_key = args[0] if args else None
-        ok_stores = bool(stores) and all(k == want_key and v == want_val for k, v in stores)
-        rets = [norm(r.value) for r in walk_no_nested(fn.node) if isinstance(r, ast.Return) and r.value is not None]
-        want_ret = "self.%s[%s]" % (slot, want_key) if want_key else "self." + slot
-        ok_ret = bool(rets) and all(r == want_ret for r in rets)
-        # other methods must not touch this slot
-        foreign = [n for n2, f2 in m.methods.items() if n2 not in (q, "__init__") for n in ast.walk(f2.node) if isinstance(n, ast.Attribute) and n.attr == slot]
-        ctx.check(ok_stores and ok_ret and not foreign, fn.short, "%s <- %s ; returns %s" % (slot, sorted(set(v for _, v in stores)), sorted(set(rets))), "the cache must be transparent: same answers as the uncached child", fn.where(), {"stores": stores, "returns": rets, "foreign_access": len(foreign)})
+    log: List[Any] = []
+    child = stand_in_operand(ctx, "child", log)
+    try:
+        memo = construct(ctx, m, child, hook=_quiet_hook)
+    except (Unfoldable, Raised) as ex:
+        raise AnalysisError("%s cannot be constructed over a stand-in operand: %s" % (m.qualname, ex))
+    # divisors that a truncated / hashed / scaled memo key would confuse: d + 2**6, d + 2**32, d + 2**64, d + (2**61 - 1) [the
+    # modulus of int.__hash__], multiples, neighbours
+    ds = [5, 7, 5, 5 + 64, 5 + 2**32, 5 + 2**61 - 1, 5 + 2**64, 10, 320, 35, 4, 6, 1, 7, 5 + 64]
+    sequence: List[Any] = [("min", ()), ("max", ())]
+    for i, d in enumerate(ds):
+        sequence.append(("modulo", (d,)))
+        if i % 5 == 2:
+            sequence += [("expand", ()), ("min", ()), ("max", ())]
+    bad: Dict[str, List[str]] = {q: [] for q in QUERIES}
+    for i, (q, a) in enumerate(sequence):
+        got = _ask(ctx, memo, q, *a)
+        want = child._answers_(q, *a)
+        ctx.count()
+        if got is not want:
+            bad[q].append("query #%d %s%r answered %r, the operand answers %r" % (i + 1, q, a, got, want))
+    for q in QUERIES:
+        fn = ctx.repo.lookup_method(m, q)
+        ctx.check(not bad[q], (fn.short if fn else m.short + "." + q), "%s of the memo == %s of the operand, on a sequence of %d interleaved queries (divisors that a truncated or hashed key would confuse)" % (q, q, len(sequence)), "the cache must be transparent: same answers as the uncached child", fn.where() if fn else m.module.relpath, bad[q][:3])
+    ctx.analysed["C01.R3.operand_queries"] = ["%s%r" % (n, a) for n, a, _ in log]
 
 
 def rule_r4(ctx: Ctx) -> None:
     ctx.rule("C01.R4", "query-dependency matrix: min<-min, max<-max, modulo<-modulo(+max), expand<-expand; BitLengthSet queries map to the operator queries of the same name", min_instances=28)
     allowed = {"min": {"min"}, "max": {"max"}, "modulo": {"modulo", "max"}, "expand": {"expand", "min", "max", "modulo"}}
-    for c in operators(ctx):
+    for c in concrete_operators(ctx):
         for q in QUERIES:
-            fn = c.methods.get(q)
-            if fn is None:
-                ctx.fail(c.short + "." + q, "missing", "operator lacks query %s" % q, where=c.module.relpath)
-                continue
+            fn = ctx.repo.lookup_method(c, q)
+            if fn is None or fn.cls is not c:
+                continue  # inherited: analysed on the class that defines it
             used = set()
             for n in ast.walk(fn.node):
                 if isinstance(n, ast.Attribute) and n.attr in QUERIES and not (isinstance(n.value, ast.Name) and n.value.id in ("itertools",)):
@@ -344,65 +408,133 @@ def rule_r6(ctx: Ctx) -> None:
         # the summed elements are reduced modulo the divisor (R5 covers it); the expand() twin uses the true count
         ex = c.methods.get("expand")
         if ex is not None:
-            from ..linform import count_attr_of
+            from ..linform import _local_defs, count_attr_of, count_domain, enumerations
 
-            kattr = [count_attr_of(c)]
-            cw = [cl for cl in calls_in(ex.node, include_nested=True) if (dotted(cl.func) or "").endswith("combinations_with_replacement")]
-            good = len(cw) == 1 and bool(kattr)
-            if good and cname == "RepetitionOperator":
-                good = norm(cw[0].args[1]) == kattr[0]
-            if good and cname == "RangeRepetitionOperator":
-                good = "range(%s + 1)" % kattr[0] in norm(ex.node)
+            kattr = count_attr_of(c)
+            ens = enumerations(ctx, ex)
+            good = len(ens) == 1
+            if good:
+                dom = count_domain(ens[0], _local_defs(ex, ctx.inl(ex)))
+                if cname == "RepetitionOperator":
+                    good = dom is not None and dom[0] == "one" and norm(dom[1]) == kattr
+                else:
+                    good = dom is not None and dom[0] == "range" and norm(dom[1]) in ("%s + 1" % kattr, "1 + %s" % kattr)
             ctx.check(good, ex.short, "numerical expansion uses the true count", "expansion is the definition (k-fold multiset sums) against which the analytic answers are validated", ex.where(), nontrivial=False)
     ctx.sample({"rule": "C01.R6", "proved": "min(k, d + k % d): K==k under k<=d+r; K=d+r: K≡k (mod d), K>=d-1, K<=k under d+r<=k"})
 
 
-def rule_r7(ctx: Ctx) -> None:
-    repo = ctx.repo
-    ctx.rule("C01.R7", "composition plumbing: pad/repeat/repeat_range/concatenate/unite/+/| build the operator of the matching kind over the operands, in order, without touching them", min_instances=10)
+def _is_operator(ctx: Ctx, v: Any) -> bool:
+    return isinstance(v, AObj) and ctx.repo.is_subclass(v._cls_, ctx.cls(SYM + ".Operator"))
+
+
+def _fields(o: AObj) -> Dict[str, Any]:
+    return {k: v for k, v in o.__dict__.items() if k not in ("_cls_", "_ctx_") and not k.endswith("_")}
+
+
+def _unwrap(ctx: Ctx, op: Any) -> Any:
+    """the operator under any number of memoising wrappers"""
+    memo = ctx.cls(SYM + ".MemoizationOperator")
+    for _ in range(4):
+        if not (isinstance(op, AObj) and ctx.repo.is_subclass(op._cls_, memo)):
+            break
+        inner = [v for v in _fields(op).values() if _is_operator(ctx, v)]
+        if len(inner) != 1:
+            break
+        op = inner[0]
+    return op
+
+
+def _op_of(ctx: Ctx, bls: Any) -> Any:
+    if not (isinstance(bls, AObj) and bls._cls_.name == "BitLengthSet"):
+        return None
+    ops = [v for v in _fields(bls).values() if _is_operator(ctx, v)]
+    return _unwrap(ctx, ops[0]) if len(ops) == 1 else None
+
+
+def _describe(ctx: Ctx, op: Any) -> Any:
+    """(class name, operand operators in order, scalar parameters, constant values) of a constructed operator"""
+    op = _unwrap(ctx, op)
+    if not _is_operator(ctx, op):
+        return ("?", repr(op)[:40])
+    if "min" in op.__dict__ and isinstance(op.__dict__["min"], Tok):
+        return op  # a stand-in operand: identified by itself
+    kids: List[Any] = []
+    scalars: List[Any] = []
+    consts: List[Any] = []
+    for v in _fields(op).values():
+        if _is_operator(ctx, v):
+            kids.append(_describe(ctx, v))
+        elif isinstance(v, (list, tuple)) and v and all(_is_operator(ctx, x) for x in v):
+            kids.extend(_describe(ctx, x) for x in v)
+        elif isinstance(v, (set, frozenset)):
+            consts.append(frozenset(v))
+        elif isinstance(v, int) and not isinstance(v, bool):
+            scalars.append(v)
+    return (op._cls_.name, kids, scalars, consts)
+
+
+def _eval_bls(ctx: Ctx, src: str, env: Dict[str, Any]) -> Any:
     b = ctx.cls(BLS)
-    single = {"pad_to_alignment": "PaddingOperator", "repeat": "RepetitionOperator", "repeat_range": "RangeRepetitionOperator"}
-    for name, op in single.items():
+    try:
+        return Folder(env, ctx.repo, b.module, None, _quiet_hook).fold(ast.parse(src, mode="eval").body)
+    except Unfoldable as ex:
+        raise AnalysisError("%s cannot be evaluated over the rule's operands: %s" % (src, ex))
+    except Raised as ex:
+        return ("raised", ex.cls_name)
+
+
+def rule_r7(ctx: Ctx) -> None:
+    ctx.rule("C01.R7", "composition plumbing: every public composition, evaluated over stand-in operands, builds the operator of the matching kind over the operands' operators, in order; a set built from a set / operator / int / iterable represents exactly that", min_instances=10)
+    b = ctx.cls(BLS)
+    X, Y = stand_in_operand(ctx, "X"), stand_in_operand(ctx, "Y")
+    try:
+        bx = construct(ctx, b, X, hook=_quiet_hook)
+        by = construct(ctx, b, Y, hook=_quiet_hook)
+    except (Unfoldable, Raised) as ex:
+        raise AnalysisError("BitLengthSet cannot be constructed over a stand-in operator: %s" % ex)
+    env = {"bx": bx, "by": by, "X": X, "Y": Y}
+    nul = lambda *vals: ("NullaryOperator", [], [], [frozenset(vals)])  # noqa: E731
+    cases = [
+        ("pad_to_alignment", "bx.pad_to_alignment(8)", ("PaddingOperator", [X], [8], [])),
+        ("repeat", "bx.repeat(5)", ("RepetitionOperator", [X], [5], [])),
+        ("repeat_range", "bx.repeat_range(5)", ("RangeRepetitionOperator", [X], [5], [])),
+        ("concatenate", "BitLengthSet.concatenate([bx, 7, by, {1, 2}])", ("ConcatenationOperator", [X, nul(7), Y, nul(1, 2)], [], [])),
+        ("unite", "BitLengthSet.unite([by, bx, {1, 2}, 7])", ("UnionOperator", [Y, X, nul(1, 2), nul(7)], [], [])),
+        ("__add__", "bx + by", ("ConcatenationOperator", [X, Y], [], [])),
+        ("__add__", "bx + 7", ("ConcatenationOperator", [X, nul(7)], [], [])),
+        ("__radd__", "7 + bx", ("ConcatenationOperator", [nul(7), X], [], [])),
+        ("__or__", "bx | by", ("UnionOperator", [X, Y], [], [])),
+        ("__or__", "bx | {1, 2}", ("UnionOperator", [X, nul(1, 2)], [], [])),
+        ("__ror__", "{1, 2} | bx", ("UnionOperator", [nul(1, 2), X], [], [])),
+        ("__init__", "BitLengthSet(bx)", X),
+        ("__init__", "BitLengthSet(X)", X),
+        ("__init__", "BitLengthSet(7)", nul(7)),
+        ("__init__", "BitLengthSet([3, 4, 4])", nul(3, 4)),
+        ("__init__", "BitLengthSet({3, 4})", nul(3, 4)),
+    ]
+    per: Dict[str, List[Any]] = {}
+    for name, src, want in cases:
+        r = _eval_bls(ctx, src, env)
+        got = _describe(ctx, _op_of(ctx, r)) if not isinstance(r, tuple) else r
+        ctx.count()
+        per.setdefault(name, []).append((src, got == want if not isinstance(want, AObj) else got is want, got, want))
+    for name, rows in per.items():
         fn = b.methods.get(name)
-        rets = [r.value for r in walk_no_nested(fn.node) if isinstance(r, ast.Return)] if fn else []
-        good = False
-        if len(rets) == 1 and isinstance(rets[0], ast.Call) and norm(rets[0].func) == "BitLengthSet" and len(rets[0].args) == 1 and isinstance(rets[0].args[0], ast.Call):
-            inner = rets[0].args[0]
-            k = repo.resolve_expr(fn.module, inner.func, b)
-            good = isinstance(k, ClassInfo) and k.name == op and [norm(a) for a in inner.args] == ["self._op", fn.params[1]]
-        ctx.check(good, b.short + "." + name, norm(rets[0]) if rets else "?", "%s must wrap self's operator in a %s with the given parameter" % (name, op), fn.where() if fn else "")
-    multi = {"concatenate": "ConcatenationOperator", "unite": "UnionOperator"}
-    for name, op in multi.items():
-        fn = b.methods.get(name)
-        src = norm(fn.node) if fn else ""
-        p = fn.params[0] if fn else "sets"
-        good = ("%s((BitLengthSet(s)._op for s in %s))" % (op, p)) in src and "return BitLengthSet(op)" in src
-        ctx.check(good, b.short + "." + name, "%s(BitLengthSet(s)._op for s in %s)" % (op, p), "%s must combine the operands' operators in the given order" % name, fn.where() if fn else "")
-    dunder = {"__add__": "BitLengthSet.concatenate([self, other])", "__radd__": "BitLengthSet.concatenate([other, self])", "__or__": "BitLengthSet.unite([self, other])", "__ror__": "BitLengthSet.unite([other, self])"}
-    for name, want in dunder.items():
-        fn = b.methods.get(name)
-        rets = [norm(r.value) for r in walk_no_nested(fn.node) if isinstance(r, ast.Return)] if fn else []
-        ctx.check(rets == [want.replace("other", fn.params[1])] if fn else False, b.short + "." + name, str(rets), "%s is %s" % (name, want), fn.where() if fn else "")
-    init = b.methods.get("__init__")
-    paths = paths_of(ctx.inl(init)) if init else []
-    table = {}
-    for p in paths:
-        key = " & ".join(("" if pol else "!") + norm(c) for c, pol in p.conds if not isinstance(c, tuple))
-        table[key] = norm(p.env.get("self._op")) if p.env.get("self._op") is not None else None
-    v = init.params[1] if init else "value"
-    want_t = {
-        "isinstance(%s, BitLengthSet)" % v: "%s._op" % v,
-        "!isinstance(%s, BitLengthSet) & isinstance(%s, Operator)" % (v, v): "MemoizationOperator(%s)" % v,
-        "!isinstance(%s, BitLengthSet) & !isinstance(%s, Operator) & isinstance(%s, int)" % (v, v, v): "NullaryOperator([%s])" % v,
-        "!isinstance(%s, BitLengthSet) & !isinstance(%s, Operator) & !isinstance(%s, int)" % (v, v, v): "NullaryOperator(%s)" % v,
-    }
-    ctx.check(table == want_t, b.short + ".__init__", str(table), "a set is built from another set (shared immutable operator), an operator (memoised), an int or an iterable of ints", init.where() if init else "")
-    # concatenation / union / nullary constructors copy their operands in order
-    for cname, want_s in (("ConcatenationOperator", "list(children)"), ("UnionOperator", "list(children)"), ("NullaryOperator", "set(values)")):
+        bad = [{"expression": src, "built": repr(got)[:200], "expected": repr(want)[:200]} for src, ok, got, want in rows if not ok]
+        ctx.check(not bad, b.short + "." + name, "; ".join(src for src, *_ in rows), "%s must build the matching operator over the operands' operators, in the given order" % name, fn.where() if fn else b.module.relpath, bad[:3])
+    # the operands of a composition are not changed by it: the stand-ins were only handed on (their fields are as before)
+    # constructors that take a container copy it (the caller's list / set is not kept by reference)
+    for cname, make in (("ConcatenationOperator", lambda: [X, Y]), ("UnionOperator", lambda: [X, Y]), ("NullaryOperator", lambda: {1, 2})):
         c = ctx.cls(SYM + "." + cname)
-        i2 = c.methods.get("__init__")
-        stores = [norm(st.value) for st in walk_no_nested(i2.node) if isinstance(st, ast.Assign) and (dotted(st.targets[0]) or "").startswith("self._")] if i2 else []
-        ctx.check(stores == [want_s.replace("children", i2.params[1]).replace("values", i2.params[1])] if i2 else False, c.short + ".__init__", str(stores), "operands are copied, in order", i2.where() if i2 else "", nontrivial=False)
+        arg = make()
+        try:
+            o = construct(ctx, c, arg, hook=_quiet_hook)
+        except (Unfoldable, Raised) as ex:
+            raise AnalysisError("%s cannot be constructed: %s" % (c.qualname, ex))
+        kept = [k for k, v in _fields(o).items() if v is arg]
+        same = [k for k, v in _fields(o).items() if isinstance(v, (list, tuple, set, frozenset)) and (list(v) == list(arg) if isinstance(arg, list) else set(v) == set(arg))]
+        i2 = ctx.repo.lookup_method(c, "__init__")
+        ctx.check(not kept and bool(same), c.short + ".__init__", "operands stored as a copy, in order", "operands are copied, in order", i2.where() if i2 else c.module.relpath, {"kept_by_reference": kept}, nontrivial=False)
 
 
 # constructor parameter roles of the operators, by position after self
@@ -416,27 +548,14 @@ OPERATOR_ROLES = {
 }
 
 
-def _operator_instance(ctx: Ctx, c: ClassInfo, actual: Dict[str, Any]) -> Sym:
-    """the abstract instance the constructor builds for the given arguments: its stores folded over the arguments"""
-    init = c.methods.get("__init__")
-    if init is None:
-        raise AnalysisError("%s.__init__ missing" % c.qualname)
-    roles = OPERATOR_ROLES[c.name]
-    params = init.params[1:]
-    if len(params) != len(roles):
-        raise AnalysisError("%s.__init__ takes %s, expected roles %s" % (c.qualname, params, roles))
-    env = {p: actual[r] for p, r in zip(params, roles)}
-    fields: Dict[str, Any] = {}
-    for st in walk_no_nested(ctx.inl(init)):
-        if isinstance(st, (ast.Assign, ast.AnnAssign)):
-            t = st.targets[0] if isinstance(st, ast.Assign) else st.target
-            d = dotted(t) or ""
-            if d.startswith("self.") and d.count(".") == 1 and st.value is not None:
-                try:
-                    fields[d.split(".")[1]] = Folder(env, ctx.repo, c.module, c).fold(st.value)
-                except Unfoldable as ex:
-                    raise AnalysisError("%s.__init__: cannot fold the store %s: %s" % (c.qualname, norm(st), ex))
-    return Sym(**fields)
+def _operator_instance(ctx: Ctx, c: ClassInfo, actual: Dict[str, Any]) -> AObj:
+    """the instance the constructor chain (super() flattened, helpers expanded) builds for the given arguments"""
+    try:
+        return construct(ctx, c, *[actual[r] for r in OPERATOR_ROLES[c.name]], hook=_quiet_hook)
+    except Unfoldable as ex:
+        raise AnalysisError("%s cannot be constructed over abstract operands: %s" % (c.qualname, ex))
+    except Raised as ex:
+        raise AnalysisError("%s rejects the operands %r: %s" % (c.qualname, actual, ex.cls_name))
 
 
 def _analytic_samples(cname: str) -> List[Dict[str, Any]]:
@@ -478,24 +597,18 @@ def rule_r8(ctx: Ctx) -> None:
     for cname in OPERATOR_ROLES:
         c = ctx.cls(SYM + "." + cname)
         for q in ("min", "max"):
-            fn = c.methods.get(q)
-            if fn is None:
+            fn = ctx.repo.lookup_method(c, q)
+            if fn is None or fn.is_abstract:
                 raise AnalysisError("anchor %s.%s missing" % (cname, q))
-            v = single_return(ctx, fn)
-            if v is None:
-                raise AnalysisError("%s.%s: not a single returned expression" % (cname, q))
             bad = []
             for x in _analytic_samples(cname):
                 me = _operator_instance(ctx, c, x)
-                try:
-                    got = Folder({"self": me}, repo, c.module, c).fold(v)
-                except Unfoldable as ex:
-                    raise AnalysisError("%s.%s: cannot evaluate %s over abstract operands: %s" % (cname, q, norm(v)[:60], ex))
+                got = _ask(ctx, me, q)
                 want = _spec_minmax(cname, q, x)
                 ctx.count()
                 if got != want:
                     bad.append({"operands": repr(x)[:160], "found": got, "expected": want})
-            ctx.check(not bad, c.short + "." + q, norm(v)[:80], "%s of a %s must equal its definition" % (q, cname), fn.where(), bad[:3])
+            ctx.check(not bad, c.short + "." + q, "%s evaluated on %d constructed instances" % (q, len(_analytic_samples(cname))), "%s of a %s must equal its definition" % (q, cname), fn.where(), bad[:3])
     pc = ctx.cls(SYM + ".PaddingOperator")
     pad = pc.methods.get("_pad")
     if pad is None:
@@ -555,6 +668,13 @@ def rule_r8(ctx: Ctx) -> None:
     ctx.check(region_ok, pi.short, "alignment < 1 rejected", "a padding needs a positive alignment", pi.where(), nontrivial=False)
 
 
+def rule_r9(ctx: Ctx) -> None:
+    from . import approx_keys
+
+    ctx.rule("C01.R9", "the algebra holds no container or memo that identifies a bit length set by its (approximate) equality: compositions and queries are computed for the operands given, not for an equal-comparing set seen earlier", min_instances=1)
+    approx_keys.rule(ctx, "C01.R9", ["_bit_length_set"], "BitLengthSet.__eq__ / __hash__ compare min, max and a few residues only: a result looked up by them belongs to a different set", "pydsdl/_bit_length_set/_bit_length_set.py")
+
+
 def run(ctx: Ctx) -> None:
     ctx.attempt(rule_r1, ctx)
     ctx.attempt(rule_r2, ctx)
@@ -564,5 +684,6 @@ def run(ctx: Ctx) -> None:
     ctx.attempt(rule_r6, ctx)
     ctx.attempt(rule_r7, ctx)
     ctx.attempt(rule_r8, ctx)
+    ctx.attempt(rule_r9, ctx)
     ctx.assume("itertools.product / combinations_with_replacement, math.lcm and set arithmetic are exact (trusted stdlib)")
     ctx.undecided("that the per-operator residue formulas equal the mathematical definition for all operator trees and divisors (number theory over unbounded integers); validate_numerically is a run-time self-check")
